@@ -231,6 +231,7 @@ fn run_sweeper_loop(
                 .total_expired
                 .fetch_add(total_expired, Ordering::Relaxed);
             stats.total_runs.fetch_add(1, Ordering::Relaxed);
+            #[cfg(not(feoxdb_verif))]
             stats.last_run.store(
                 std::time::SystemTime::now()
                     .duration_since(std::time::UNIX_EPOCH)
@@ -239,9 +240,9 @@ fn run_sweeper_loop(
                 Ordering::Relaxed,
             );
             #[cfg(feoxdb_verif)]
-            if let Some(now) = crate::verif::now_nanos() {
-                stats.last_run.store(now, Ordering::Relaxed);
-            }
+            stats
+                .last_run
+                .store(crate::verif::wall_nanos(), Ordering::Relaxed);
         }
 
         // Check shutdown flag again
